@@ -284,7 +284,14 @@ def _layout(rng, nb, nfiles=None, shuffle=True, maxfiles=4, id_base=0):
     nf = nfiles if nfiles is not None else rng.randint(1, max(1, min(maxfiles, nb)))
     nf = max(1, min(nf, nb))
     assign = [rng.randrange(nf) for _ in range(nb)]
-    ids = [id_base + v for v in rng.sample(range(0, 40), nf)]      # id_base 100000: six-digit file numbers
+    if id_base == "mixed":
+        # file numbers of five AND six digits at one level (Cell_D_99999 beside Cell_D_100000: what AMReX writes
+        # from file 100000 on) - as strings they do not sort like the numbers they hold
+        ids = [99985 + v for v in rng.sample(range(0, 40), nf)]
+        if nf >= 2 and len({len(str(v)) for v in ids}) == 1:
+            ids[0], ids[1] = 99999, 100000
+    else:
+        ids = [id_base + v for v in rng.sample(range(0, 40), nf)]      # id_base 100000: six-digit file numbers
     order = list(range(nb))
     if shuffle:
         rng.shuffle(order)
@@ -466,7 +473,8 @@ def _payload(m, lv, bi, b, payload, nprng):
 
 
 def write_plotfile(m, path, ref_ratio_extra=0, trailing_blank=True, close_blank=False,
-                   floatfmt="repr", levels=None, index_shift=0):
+                   floatfmt="repr", levels=None, index_shift=0, path_blank=False, final_newline=True,
+                   level_prefix="Level_"):
     """Write model m at `path`. Records m.offsets / m.files (per level, per box)."""
     # "6g": what a C++ stream at its default precision writes (cell sizes such as 0.166667 / 0.0833333)
     ff = {"repr": fmt_repr, "17g": fmt_17g, "16e": fmt_16e, "6g": lambda x: "%g" % float(x)}[floatfmt]
@@ -486,7 +494,9 @@ def write_plotfile(m, path, ref_ratio_extra=0, trailing_blank=True, close_blank=
     zero = ",".join(["0"] * nd)
     m.offsets, m.files = [], []
     for lv in range(nl):
-        ldir = os.path.join(path, f"Level_{lv}")
+        # AMReX lets the writer choose the prefix of the level directories (WriteMultiLevelPlotfile(..., levelPrefix));
+        # the Header's data-path lines say where each level lives
+        ldir = os.path.join(path, f"{level_prefix}{lv}")
         os.makedirs(ldir)
         lay = m.layout[lv]
         nb = len(m.boxes[lv])
@@ -549,8 +559,12 @@ def write_plotfile(m, path, ref_ratio_extra=0, trailing_blank=True, close_blank=
             for bi in range(len(m.boxes[lv])):
                 for lo, hi in m.phys_box(lv, bi):
                     h.write(f"{ff(lo)} {ff(hi)}\n")
-            h.write(f"Level_{lv}/Cell\n")
+            # white space at the end of the data-path lines (AMReX reads them with `is >> string`, which skips
+            # it): a trailing blank; no line feed after the very last line of the file
+            last = lv == nl - 1
+            h.write(f"{level_prefix}{lv}/Cell" + (" " if path_blank else "") + ("" if last and not final_newline else "\n"))
     m.path = path
+    m.level_dirs = [f"{level_prefix}{lv}" for lv in range(nl)]
     return m
 
 
